@@ -82,12 +82,19 @@ CauseOf(c, s) ==
     IF c = "NOTIF" THEN {<<6, 0>>}
     ELSE { <<f[1], IF f[2] = {} THEN 0 ELSE CHOOSE x \in f[2] : TRUE>> : f \in Required(c, s) }
 
+\* where the RFCs leave the choice (Permitted), the code may also end the session with one of the permitted NOTIFICATIONs
+MayEnd(c, s) == { <<f[1], IF f[2] = {} THEN 0 ELSE CHOOSE x \in f[2] : TRUE>> : f \in Permitted(c, s) }
+                \cup (IF c = "KA" /\ s = "ESTABLISHED" /\ hold = 0 THEN {<<2, 6>>, <<5, 3>>} ELSE {})   \* as ExaSession!ConsumeEff allows
 Read(ok) ==                                                    \* one message (or EOF) consumed from the transport
     /\ inq # <<>> /\ ~deaf
     /\ LET c == Head(inq)[1] IN
-       /\ Sys(ConsumeEff(now, CfgHold), ConsumeViol, Route(c, fsm, ok))
-       /\ IF Route(c, fsm, ok) = "t0" THEN cause' \in CauseOf(c, fsm) ELSE cause' = cause
-       /\ UNCHANGED <<deaf, waitFrom, delayUntil>>
+       \/ /\ Sys(ConsumeEff(now, CfgHold), ConsumeViol, Route(c, fsm, ok))
+          /\ IF Route(c, fsm, ok) = "t0" THEN cause' \in CauseOf(c, fsm) \cup MayEnd(c, fsm) ELSE cause' = cause
+          /\ UNCHANGED <<deaf, waitFrom, delayUntil>>
+       \/ /\ Route(c, fsm, ok) = ok /\ MayEnd(c, fsm) # {}
+          /\ Sys(ConsumeEff(now, CfgHold), ConsumeViol, "t0")
+          /\ cause' \in MayEnd(c, fsm)
+          /\ UNCHANGED <<deaf, waitFrom, delayUntil>>
 
 \* run(): while True: ... if self._restart: await self._run()
 G_Active == pc = "run" /\ now >= delayUntil
@@ -122,19 +129,24 @@ SUp      == G_Up /\ IF tear # 0
                     ELSE Sys(ApiUpEff, ApiUpViol, "m1") /\ Same
 G_Eor    == pc = "m1"
 SEor     == G_Eor /\ Sys(TxEff(UPDATE, now), TxViol(UPDATE, 0, 0, now), "m2") /\ Same        \* End-of-RIB of the first batch
-\* the main loop, one disjunct per thing an iteration can do
-G_MRead  == pc = "m2" /\ inq # <<>> /\ ~deaf
-SMRead   == pc = "m2" /\ Read("m2")
-G_Hold   == pc = "m2" /\ hold > 0 /\ now - lastRx > hold /\ ~NoHoldTimer
+\* the main loop, one disjunct per thing an iteration can do ("m1": the End-of-RIB of the first batch is still to be sent)
+Main == {"m1", "m2"}
+G_MRead  == pc \in Main /\ inq # <<>> /\ ~deaf
+SMRead   == pc \in Main /\ Read(pc)
+G_Hold   == pc \in Main /\ hold > 0 /\ now - lastRx > hold /\ ~NoHoldTimer
 SHold    == G_Hold /\ Sys(Skip, {}, "t0") /\ cause' = <<4, 0>> /\ UNCHANGED <<deaf, waitFrom, delayUntil>>
-G_Ka     == pc = "m2" /\ hold > 0 /\ now - lastKA >= KaEvery
-SKa      == G_Ka /\ Sys(TxEff(KEEPALIVE, now), TxViol(KEEPALIVE, 0, 0, now), "m2") /\ Same
-G_Tear   == pc = "m2" /\ tear # 0
+G_Ka     == pc \in Main /\ hold > 0 /\ now - lastKA >= KaEvery
+SKa      == G_Ka /\ Sys(TxEff(KEEPALIVE, now), TxViol(KEEPALIVE, 0, 0, now), pc) /\ Same
+G_Tear   == pc \in Main /\ tear # 0
 STear    == G_Tear /\ Sys(Skip, {}, "t0") /\ cause' = <<6, tear>> /\ UNCHANGED <<deaf, waitFrom, delayUntil>>
 \* _run: except Notify: new_notification, _reset -> _close: api down, fsm IDLE, proto.close
 G_Notify == pc = "t0"
 SNotify  == G_Notify /\ (IF open THEN Sys(TxEff(NOTIFICATION, now), TxViol(NOTIFICATION, cause[1], cause[2], now), "t1")
                                  ELSE Sys(Skip, {}, "t1")) /\ Same
+\* the NOTIFICATION could not be written because the remote end is gone: the writer closes the connection itself
+\* (_run: except (NetworkError, ProcessError): 'notification.send.failed'), the rest of _reset follows
+G_WFail  == pc = "t1" /\ open /\ notified /\ \E i \in 1..Len(inq) : inq[i][1] = "EOF"
+SWFail   == G_WFail /\ Sys(CloseEff, CloseViol, "t1") /\ Same
 G_Down   == pc = "t1"
 SDown    == G_Down /\ (IF fsm \notin {"IDLE", "ACTIVE"} THEN Sys(ApiDownEff, {}, "t2") ELSE Sys(Skip, {}, "t2")) /\ Same
 G_ToIdle == pc = "t2"
@@ -147,9 +159,9 @@ G_FClose == pc = "f0"
 SFClose  == G_FClose /\ Sys(CloseEff, CloseViol, "t1") /\ Same
 
 SysNext == SActive \/ SIdle \/ SConn \/ SOpen \/ SOSent \/ SROpen \/ SOWait \/ SOConf \/ SKa0 \/ SRKa \/ SEst \/ SUp \/ SEor
-           \/ SMRead \/ SHold \/ SKa \/ STear \/ SNotify \/ SDown \/ SToIdle \/ SClose \/ SFClose
+           \/ SMRead \/ SHold \/ SKa \/ STear \/ SNotify \/ SWFail \/ SDown \/ SToIdle \/ SClose \/ SFClose
 SysEnabled == G_Active \/ G_Idle \/ G_Conn \/ G_Open \/ G_OSent \/ G_ROpen \/ G_OWait \/ G_OConf \/ G_Ka0 \/ G_RKa \/ G_Est
-              \/ G_Up \/ G_Eor \/ G_MRead \/ G_Hold \/ G_Ka \/ G_Tear \/ G_Notify \/ G_Down \/ G_ToIdle \/ G_Close \/ G_FClose
+              \/ G_Up \/ G_Eor \/ G_MRead \/ G_Hold \/ G_Ka \/ G_Tear \/ G_Notify \/ G_WFail \/ G_Down \/ G_ToIdle \/ G_Close \/ G_FClose
 
 \* ---------------------------------------------------------------------------------------
 \* environment
@@ -207,7 +219,7 @@ EIncoming ==
 Deadline ==
     IF pc = "run" THEN delayUntil
     ELSE IF pc = "e6" THEN waitFrom + OpenWait
-    ELSE IF pc = "m2" /\ hold > 0 THEN Min(lastRx + hold + 1, lastKA + KaEvery)
+    ELSE IF pc \in Main /\ hold > 0 THEN Min(lastRx + hold + 1, lastKA + KaEvery)
     ELSE -1
 \* A tick that only brings time to the next deadline is not counted in the budget (the timers would otherwise eat it up);
 \* the relative VIEW keeps the exploration finite.
